@@ -1082,24 +1082,4 @@ theorem submitAll_clean (cfg : Cfg) : ∀ (ss : List Nat) (st : St), st.dead = f
     simp only [sameSession] at this
     exact ih (submit cfg st s 0) (this.2.2.2.1.trans h1) (this.2.2.2.2.1.trans h2)
 
-/-- any fragmentation of complete conforming lines: every callback goes to a request that was waiting, when its line was reached,
-on the channel that line names, with that line's body -/
-theorem feed_delivered (cfg : Cfg) (hconc : cfg.concurrency > 0) (hfix : cfg.popOnlyWhenComplete = true)
-    (hfix2 : cfg.dropUnterminated = true) (ls : List (Bytes × Bytes)) (st : St)
-    (hgl : GoodLines ls) (hs : LineStart st) (hcl : st.closed = false) (hdd : st.dead = false)
-    (hp : st.pending ≠ 0) (cs : List Bytes) (c0 : Bytes) (hx : c0 ++ cs.flatten = encode ls)
-    (hpend : ∀ k, k < cs.length → (handleRead cfg st (c0 ++ (cs.take k).flatten)).pending ≠ 0) :
-    ∃ extra, (feed cfg st (c0 :: cs)).delivered = st.delivered ++ extra ∧
-      ∀ d ∈ extra, ∃ pre p post, ls = pre ++ p :: post ∧ ∃ r ∈ (runLines cfg st pre).requests,
-        (r.id : Int) = chanOf cfg p.1 ∧ d = (r.serial, r.acc ++ p.2) := by
-  have h1 := feed_eq_single cfg hconc hfix hfix2 ls .none st hgl trivial hs hcl hdd hp cs c0 [] (by simpa [Tail.enc] using hx) hpend
-  have h0 : ∀ c ∈ encode ls, c ≠ 0 := by
-    have := stream_no_nul ls .none hgl trivial
-    simpa [Tail.enc] using this
-  have h2 : handleRead cfg st (encode ls) = runLines cfg st ls := by
-    rw [handleRead_eq_loop cfg st _ hcl hdd h0 hp, st_rbuf_eta st hs.rbuf, hs.rbuf]
-    exact loop_lines cfg hconc ls st _ hgl hs (by simp)
-  rw [h1, hx, h2]
-  exact runLines_delivered cfg hconc ls st
-
 end SquidModel.Helper
